@@ -28,6 +28,11 @@ claim("C04",
   "File-system durability of O_SYNC+rename and the JSON round trip inside the timestamp-only helpers are trusted." + TB,
   STATIC + "comparison-only abstract interpretation (K6), must-pass-through CFG paths (K2), guard dominance (K1), who-may-call/write (K3), field coverage (K4)")
 
+claim("C09",
+  "Journal discipline decided as an all-paths property over every write site found in the store index: each write to a journaled location (14 fields of Account/stateObject/StateDB) is in a raw setter, a revert method, a listed constructor/copier/finaliser (each with a reason) or is preceded on every path by journal.append of the paired entry type; each raw-setter call likewise; what every append captures is compared with the location it covers; every journalEntry implementation (from types.Implements) must be in the entry/undo pairing table and its revert must write exactly its row; RevertToSnapshot/journal.revert loop shape; deepCopy/StateDB.Copy field coverage from the struct types and no aliasing of map fields. A genuine aliasing defect was repaired (9ed95f3); an un-journaled map insert is a known finding.",
+  "Value-level equality over nested snapshot histories and trie-level copy independence (CopyTrie) are not decided." + TB,
+  STATIC + "must-pass-through CFG paths from the field-store index (K2), entry/undo sibling table (K5), field coverage and alias check on SSA values (K4), who-may-write/call (K3)")
+
 for _p in ["C%02d" % i for i in range(1, 21)]:
     if _p not in CLAIMED:
         na(_p, PENDING)
